@@ -75,6 +75,8 @@ SITES = {
     "d3fn": ("lambda {a}: {a}.jets().Select(lambda {b}: {b}.trks().Select(lambda {c}: fn({ARGS})))", "fn"),
     "arg": ("lambda {a}: {a}.jets().Select(lambda {b}: {b}.tgt({ARGS}) + {a}.a())", "Jet"),
     "twice": ("lambda {a}: {a}.tgt({ARGS}) + {a}.jets().Select(lambda {b}: {b}.pt()).First()", "Ev"),
+    "after": ("lambda {a}: {a}.jets().Select(lambda {b}: {b}.pt()).First() + {a}.tgt({ARGS})", "Ev"),
+    "after2": ("lambda {a}: {a}.jets().Select(lambda {b}: {b}.trks().Select(lambda {c}: {c}.q()).First() + {b}.tgt({ARGS}))", "Jet"),
 }
 DICT_SITE = ("dict", "Jet")  # two stages: Select(lambda e: {'js': e.jets()}) then Select(lambda d: d.js.Select(lambda j: j.tgt(ARGS)))
 
